@@ -350,6 +350,119 @@ def run(ctx):
                          % (size, kind), case=case, expected="same value, sentinel 0xC0FFEE, nothing left",
                          observed={"same": back == val, "len": len(back) if hasattr(back, "__len__") else None,
                                    "sentinel": sentinel, "left": len(rest)})
+    # ---- text fields and name-lists through get_text / get_list: every code point class survives, in every
+    # position (a decoder default such as 'utf-8-sig' or errors='ignore' eats some of them) --------------------
+    SPECIAL = ["\ufeff", "\x00", "\u00e9", "\u4e2d", "\U0001f511", "\u200b", "\u0301", "\ufffd", "\ufffe", " ", "\t",
+               "\r", "\n", "\x7f", "\x80", "\u2028"]
+    texts = []
+    for ch in SPECIAL:
+        texts += [ch, ch + "abc", "abc" + ch, "a" + ch + "b", ch + ch]
+    for _ in range(40 * scale):
+        texts.append("".join(rng.choice(SPECIAL + list("abz-@.09")) for _ in range(rng.randrange(0, 9))))
+    for t in texts:
+        ctx.count(("text", t), nontrivial=len(t) > 0, kind="text-field")
+        try:
+            m = Message()
+            m.add_string(t)
+            m.add_string(t.encode("utf-8"))
+            m.add_int(0xC0FFEE)
+            r = Message(m.asbytes())
+            back = [r.get_text(), r.get_text(), r.get_int(), r.get_remainder()]
+        except Exception as e:  # noqa
+            ctx.fail("roundtrip-raises", "reading back a text field raised %s" % type(e).__name__,
+                     case={"text": t}, expected=t, observed=repr(e))
+            continue
+        if back != [t, t, 0xC0FFEE, b""]:
+            ctx.fail("roundtrip", "a text field written with add_string is not read back unchanged by get_text",
+                     case={"text": t}, expected=[t, t, 0xC0FFEE, b""], observed=back)
+        if "," in t:
+            continue
+        for names in ([t], [t, "x"], ["x", t], [t, t]) if t else ([t, "x"], ["x", t]):
+            ctx.count(("names", tuple(names)), nontrivial=True, kind="name-list-text")
+            try:
+                r = Message(Message().add_list(names).add_int(7).asbytes())
+                back = [r.get_list(), r.get_int(), r.get_remainder()]
+            except Exception as e:  # noqa
+                ctx.fail("roundtrip-raises", "reading back a name-list raised %s" % type(e).__name__,
+                         case={"names": names}, expected=names, observed=repr(e))
+                continue
+            if back != [names, 7, b""]:
+                ctx.fail("roundtrip", "a name-list is not read back unchanged", case={"names": names},
+                         expected=[names, 7, b""], observed=back)
+
+    # ---- the same Message object used over time: serialised, written again (every add_* incl. the raw
+    # add_byte / add_bytes), serialised again; read, rewound, read again.  The reference is an independent
+    # RFC 4251 encoder. ------------------------------------------------------------------------------------
+    def ref_encode(t, v):
+        if t == "FByte":
+            return bytes([v])
+        if t == "FRaw":
+            return bytes(v)
+        if t == "FBool":
+            return b"\x01" if v else b"\x00"
+        if t == "FU32":
+            return struct.pack(">I", v)
+        if t == "FU64":
+            return struct.pack(">Q", v)
+        if t == "FString":
+            return struct.pack(">I", len(v)) + bytes(v)
+        if t == "FList":
+            j = b",".join(bytes(x) for x in v)
+            return struct.pack(">I", len(j)) + j
+        if t == "FMpint":
+            return rfc4251_mpint(v)
+        if t == "FAdaptive":
+            return struct.pack(">I", v) if v < 0xFF000000 else b"\xff" + rfc4251_mpint(v)
+        raise ValueError(t)
+
+    def put(m, t, v):
+        {"FByte": lambda: m.add_byte(bytes([v])), "FRaw": lambda: m.add_bytes(bytes(v)),
+         "FBool": lambda: m.add_boolean(v), "FU32": lambda: m.add_int(v), "FU64": lambda: m.add_int64(v),
+         "FString": lambda: m.add_string(bytes(v)), "FList": lambda: m.add_list([x.decode() for x in v]),
+         "FMpint": lambda: m.add_mpint(v), "FAdaptive": lambda: m.add_adaptive_int(v)}[t]()
+
+    for _ in range(120 * scale):
+        fs = []
+        while len(fs) < rng.randrange(2, 9):
+            f = gen_field(rng) if rng.random() < 0.6 else rng.choice(
+                [("FByte", rng.randrange(256)), ("FRaw", rand_bytes(rng, 6))])
+            if not (f[0] == "FAdaptive" and f[1] < 0):
+                fs.append(f)
+        peeks = [rng.choice(["asbytes", "bytes", "repr", "len", None, None]) for _ in fs]
+        case = {"fields": fs, "serialised_after": peeks}
+        ctx.count(("history", repr(fs), tuple(peeks)), nontrivial=True, kind="message-history")
+        try:
+            m = Message()
+            want = b""
+            bad = None
+            for f, pk in zip(fs, peeks):
+                put(m, *f)
+                want += ref_encode(*f)
+                got = {"asbytes": lambda: m.asbytes(), "bytes": lambda: bytes(m), "repr": lambda: (repr(m), m.asbytes())[1],
+                       "len": lambda: (len(m.asbytes()), m.asbytes())[1], None: lambda: None}[pk]()
+                if got is not None and got != want and bad is None:
+                    bad = ("after %d field(s)" % (fs.index(f) + 1), got)
+            final = m.asbytes()
+            if bad is None and final != want:
+                bad = ("at the end", final)
+            if bad is not None:
+                ctx.fail("history-roundtrip", "a Message serialised between writes does not contain every field written "
+                         "(%s)" % bad[0], case=case, expected=want, observed=bad[1])
+                continue
+            r = Message(final)
+            cut = rng.randrange(0, len(final) + 1)
+            r.get_bytes(cut)
+            if r.get_so_far() + r.get_remainder() != final or r.get_so_far() != final[:cut]:
+                ctx.fail("consumes-exactly", "get_so_far() + get_remainder() is not the whole message", case=case,
+                         expected=final, observed=r.get_so_far() + r.get_remainder())
+            r.rewind()
+            if r.get_remainder() != final or r.get_so_far() != b"":
+                ctx.fail("consumes-exactly", "after rewind() the remainder is not the whole message", case=case,
+                         expected=final, observed=r.get_remainder())
+        except Exception as e:  # noqa
+            ctx.fail("roundtrip-raises", "a write / serialise history raised %s" % type(e).__name__, case=case,
+                     expected="no exception", observed=repr(e))
+
     # zero is always exercised
     got = Message().add_mpint(0).asbytes()
     ctx.count(("mpint0",), kind="encode")
